@@ -319,6 +319,8 @@ func (r *runtime) InstantiateModule(
 	// Only add guest module configuration to guests.
 	if !code.module.IsHostModule {
 		if sockConfig, ok := ctx.Value(internalsock.ConfigKey{}).(*internalsock.Config); ok {
+			// Instantiation must not change the caller's configuration: set it on a copy.
+			config = config.clone()
 			config.sockConfig = sockConfig
 		}
 	}
